@@ -108,3 +108,20 @@ void h_big(void) {   /* 258 alternatives: indices 254..257 are distinct from eac
   VASSERT(out[2] == x && out[3] == 254 + which && out[4] == 0, "get_if, copy construction and holds_alternative agree for high alternative indices");
   HARNESS_END();
 }
+
+/* alternatives with trivial assignment operators but user-provided copy constructor / destructor (ledger classes 3, 4) */
+void h_triv(void) {
+  IN(u8, k1); IN(i32, x1); IN(u8, k2); IN(i32, x2); IN(u8, op); u8 sched[10] = {0, 0, 0, 0, 0, 0, 0, 0, 0, 0};
+  VASSUME(k1 < 3 && k2 < 3 && op < 5 && x1 >= 0 && x1 < 30000 && x2 >= 0 && x2 < 30000);
+  ledger_reset(sched);
+  i64 o1[2] = {-9, -9}, o2[2] = {-9, -9}, o3[2] = {-9, -9};
+  w_triv(k1, x1, k2, x2, op, (u64*)o1, (u64*)o2, (u64*)o3);
+  LEDGER_OK();
+  if (op == 0) VASSERT(o1[0] == k2 && o1[1] == x2 && o2[0] == k2 && o2[1] == x2, "copy assignment (trivially assignable alternatives): target holds the source's alternative and value, source unchanged");
+  if (op == 1) VASSERT(o1[0] == k2 && o1[1] == x2, "move assignment (trivially assignable alternatives): target holds the source's alternative and value");
+  if (op == 2) VASSERT(o1[0] == k2 && o1[1] == x2 && o2[0] == k1 && o2[1] == x1, "swap (trivially assignable alternatives) exchanges alternatives and values");
+  if (op == 3) VASSERT(o3[0] == k1 && o3[1] == x1 && o1[0] == k1 && o1[1] == x1, "copy construction (trivially assignable alternatives)");
+  if (op == 4) VASSERT(o1[0] == 2 && o1[1] == x2, "converting assignment (trivially assignable alternatives)");
+  WITNESS("alternative_changes", op == 0 && k1 == 1 && k2 == 2);
+  HARNESS_END();
+}
